@@ -14,6 +14,8 @@ trait BE: Ord + Clone + Debug + FromPrimitive + NumOps + Zero + Send + Sync + 's
     const NAME: &'static str;
     const IS_FLOAT: bool;
     fn f(&self) -> f64;
+    /// largest value of the type (as f64; infinity for floats)
+    fn tmax() -> f64;
 }
 macro_rules! be_int {
     ($t:ty) => {
@@ -23,9 +25,14 @@ macro_rules! be_int {
             fn f(&self) -> f64 {
                 *self as f64
             }
+            fn tmax() -> f64 {
+                <$t>::MAX as f64
+            }
         }
     };
 }
+be_int!(u8);
+be_int!(i16);
 be_int!(i32);
 be_int!(i64);
 be_int!(u32);
@@ -35,6 +42,9 @@ impl BE for N64 {
     const IS_FLOAT: bool = true;
     fn f(&self) -> f64 {
         self.raw()
+    }
+    fn tmax() -> f64 {
+        f64::INFINITY
     }
 }
 
@@ -61,9 +71,11 @@ enum Outcome {
     OtherErr(String),
     /// accepted, but range/width exceeds the bin limit: not built (allocation test, not a logic test)
     TooManyBins,
+    /// accepted, but max + width is not representable in the integer type: outside the property's domain
+    MaxPlusWidthNotRepresentable,
 }
 
-fn build<T: BE>(s: St, a: &Array1<T>, range: f64, limit: f64) -> Result<Result<Built<T>, Outcome>, String> {
+fn build<T: BE>(s: St, a: &Array1<T>, range: f64, limit: f64, maxf: f64) -> Result<Result<Built<T>, Outcome>, String> {
     macro_rules! go {
         ($ty:ident) => {{
             guarded(|| match $ty::<T>::from_array(a) {
@@ -71,6 +83,8 @@ fn build<T: BE>(s: St, a: &Array1<T>, range: f64, limit: f64) -> Result<Result<B
                     let w = b.bin_width();
                     if range / w.f() > limit {
                         Err(Outcome::TooManyBins)
+                    } else if maxf + w.f() > T::tmax() {
+                        Err(Outcome::MaxPlusWidthNotRepresentable)
                     } else {
                         Ok(Built { bins: b.build(), n_bins: b.n_bins(), width: w })
                     }
@@ -106,7 +120,8 @@ fn check_one<T: BE>(s: St, data: &[T], label: &dyn Fn() -> String, lx: &mut Loca
     let n = data.len();
     let desc = || format!("[{}] {:?} on {}", T::NAME, s, label());
     let range = if n == 0 { 0.0 } else { data.iter().max().unwrap().f() - data.iter().min().unwrap().f() };
-    let r = build(s, &a, range, BIN_LIMIT.load(std::sync::atomic::Ordering::Relaxed) as f64);
+    let maxf = if n == 0 { 0.0 } else { data.iter().max().unwrap().f() };
+    let r = build(s, &a, range, BIN_LIMIT.load(std::sync::atomic::Ordering::Relaxed) as f64, maxf);
     let r = match r {
         Err(m) => {
             lx.fail("C12/panic", || format!("{} panicked: {}", desc(), m));
@@ -124,6 +139,10 @@ fn check_one<T: BE>(s: St, data: &[T], label: &dyn Fn() -> String, lx: &mut Loca
             lx.check(n != 0, "C12/empty-not-reported", || format!("{} returned Strategy for empty data", desc()));
             lx.count("strategy_errors", 1);
             2
+        }
+        Err(Outcome::MaxPlusWidthNotRepresentable) => {
+            lx.skip("integer data: maximum + one bin width is not representable in the element type (outside the domain)");
+            8
         }
         Err(Outcome::TooManyBins) => {
             lx.skip("accepted but range/width exceeds the bin limit (not built)");
@@ -402,6 +421,36 @@ fn main() {
         |c, lx| {
             lx.nontrivial(true);
             run_large(c, lx)
+        },
+    );
+    // integer data in the upper part of the type's range: max + width is representable, min + 2*range is not
+    let umax = rep.cfg.pick(400, 1500);
+    let ucases = (0..4u8).flat_map(move |ty| (16..=umax).flat_map(move |n| STRATS.iter().map(move |&strat| (ty, n, strat)).collect::<Vec<_>>()));
+    rep.run_sub(
+        "upper-range-integers",
+        &format!("every n in 16..={} x 5 strategies x {{u8 data spanning 100..=220, i16 spanning 12000..=30000, i32 spanning 1e9..=2e9, u32 spanning 3e9..=4.2e9}} (evenly spread): the maximum plus one bin width is representable (cases where it is not are skipped and counted), but min + 2*(max-min) is not", umax),
+        ucases,
+        |c, lx| {
+            lx.nontrivial(true);
+            let (ty, n, strat) = *c;
+            match ty {
+                0 => {
+                    let data: Vec<u8> = large_data(n, 100.0, 220.0, 1, true);
+                    lx.single(|lx| check_one(strat, &data, &|| format!("u8 n={} spanning 100..=220", n), lx));
+                }
+                1 => {
+                    let data: Vec<i16> = large_data(n, 12000.0, 30000.0, 1, true);
+                    lx.single(|lx| check_one(strat, &data, &|| format!("i16 n={} spanning 12000..=30000", n), lx));
+                }
+                2 => {
+                    let data: Vec<i32> = large_data(n, 1e9, 2e9, 1, true);
+                    lx.single(|lx| check_one(strat, &data, &|| format!("i32 n={} spanning 1e9..=2e9", n), lx));
+                }
+                _ => {
+                    let data: Vec<u32> = large_data(n, 3e9, 4.2e9, 1, true);
+                    lx.single(|lx| check_one(strat, &data, &|| format!("u32 n={} spanning 3e9..=4.2e9", n), lx));
+                }
+            }
         },
     );
     let mut cases: Vec<GridCase> = Vec::new();
